@@ -93,7 +93,11 @@ def main():
                         part = tr[prev:c]
                         prev = c
                         if part:
-                            chunks.append({'inputs': json.loads(json.dumps(pe['inputs'])),
+                            inp_ = json.loads(json.dumps(pe['inputs']))
+                            if rng.random() < 0.3:
+                                # the same rate with float noise in the last place (0.1 + 0.2 vs 0.3): still the same data point
+                                inp_['error_rate'] = float(np.nextafter(inp_['error_rate'], 1.0))
+                            chunks.append({'inputs': inp_,
                                            'results': {'effective_error': [t['eff'] for t in part], 'success': [t['succ'] for t in part],
                                                        'codespace': [t['cs'] for t in part], 'n_runs': len(part), 'wall_time': 0.5}})
                 rng.shuffle(chunks)
